@@ -105,7 +105,10 @@ class Decide:
         if self.failed:
             return None
         self.nprops += 1
-        r, m = self.ex.solve(st, [z3.Not(prop)])
+        r = self.ex.check(st, [z3.Not(prop)])       # relevant slice of the path condition only
+        m = None
+        if r != 'unsat':
+            r, m = self.ex.solve(st, [z3.Not(prop)])
         if self.cross and r in ('sat', 'unsat'):
             cc = cross_check(self.ex, st, [z3.Not(prop)], r)
             self.cross_log.append((what, r, cc))
